@@ -177,6 +177,10 @@ def run(ctx, res):
             ref = Ref(sexp.parse(c.tables), sexp.parse(st['MIN']) if 'MIN' in st else None, c.model_outputs(),
                       t2.DEFAULT_WORDBREAKS if wb is None else wb, start=c.start)
             inv = {k: cid for cid, k in c.cid_to_probe.items()}
+            if any(l == '' for T in ref.subs.values() for l in T.literals):
+                res.violations.append(report.Violation(
+                    'hypothesis of C17_repaired_total broken: an empty literal in a within-word table',
+                    dict(kind='theorem-hypothesis', grammar=text), found_input=False))
             coq_spec_tie(c, ref, res, counters)
             for q, r in zip(c.queries, c.results):
                 res.evaluations += 1
